@@ -203,6 +203,10 @@ def validate(chk: Check, traces: list[dict], *, relevant: set[str] | None = None
         for c in clauses:
             props |= set(CLAUSE_PROPS.get(c, INV_PROPS.get(c, [chk.pid])))
         ev0 = tr["ev"][why["at"] - 1] if why["at"] <= len(tr["ev"]) else {"e": "end"}
+        if not clauses:
+            # rejected without a named clause: no property is singled out, so the one being checked answers for it
+            clauses = [f"event-not-explained:{ev0.get('e')}"]
+            props.add(chk.pid)
         if ev0.get("e") == "raise" and not ev0.get("injected", True):
             before = [e.get("e") for e in tr["ev"][:why["at"]]]
             props = {"C04", "C05"} if "restore" in before else ({"C10", "C11", "C09"} if tr["cfg"]["kind"] == "rl" else {chk.pid})
